@@ -182,6 +182,7 @@ pub fn solid(name: &str) -> (Vec<Point3>, Vec<[u32; 3]>) {
 
 fn judge_mesh(v: &[Point3], f: &[[u32; 3]], is_solid: bool, queries: &[Point3], case: &Case, l: &mut Local) {
     let mk = || serde_json::to_value(case).unwrap();
+    let poses = gen::iso3_poses();
     let m = Mesh::new(v.to_vec(), f.to_vec(), is_solid);
     let normals: Vec<Option<UnitVec3>> = m.tri_mesh().triangles().map(|t| t.normal()).collect();
     // for meshes flagged solid only outside queries are in the quantifier
@@ -285,6 +286,23 @@ fn judge_mesh(v: &[Point3], f: &[[u32; 3]], is_solid: bool, queries: &[Point3], 
             for ang in [0.2, std::f64::consts::FRAC_PI_4, 1.5] {
                 l.eval();
                 let r = m.project_with_tol(q, cap, ang, None);
+                // the transform argument moves the query first; everything else (cap, angle) is judged on
+                // the moved point
+                for t in [&poses[1], &poses[2]] {
+                    let p = t.inverse_transform_point(q);
+                    let moved = t * p;
+                    let via = m.project_with_tol(&p, cap, ang, Some(t));
+                    let direct = m.project_with_tol(&moved, cap, ang, None);
+                    let same = match (&via, &direct) {
+                        (None, None) => true,
+                        (Some(a), Some(b)) => a.1 == b.1 && a.0.point == b.0.point,
+                        _ => false,
+                    };
+                    l.outcome(hash_of(&("via-transform", via.is_some())));
+                    l.check("angle filter: a query passed with a transform is the query on the moved point", "", same, mk, || {
+                        format!("q {:?} cap {} ang {}: through the transform {:?}, on the moved point {:?}", q, cap, ang, via.as_ref().map(|x| (x.1, x.0.point)), direct.as_ref().map(|x| (x.1, x.0.point)))
+                    });
+                }
                 if best < 1e-9 {
                     l.gray("zero offset: angle undefined");
                     continue;
